@@ -335,7 +335,13 @@ def run_case(ctx, case, rng, seedbase):
             for ch in chans:
                 check_partial(ctx, ch, case)
             if not ctx.violations:
-                ctx.inconclusive("transfer stalled with intact prefixes: %s" % [ch.errors for ch in chans][:3])
+                diag = [dict(ch=ch.idx, spec={k: ch.spec[k] for k in ("direction", "opened_by", "api", "n_out", "n_err", "window", "maxread", "ptoggle", "end_combined", "perturb")},
+                             w_out_window=ch.w.out_window_size, w_closed=ch.w.closed, r_sofar=ch.r.in_window_sofar,
+                             r_thr=ch.r.in_window_threshold, r_buf=(len(ch.r.in_buffer), len(ch.r.in_stderr_buffer)),
+                             got=(len(ch.from_recv), len(ch.from_stderr)), combine=ch.r.combine_stderr,
+                             writers_alive=[t.is_alive() for t in ch.threads[:2]], stacks=cm.stacks_of([t for t in ch.threads[:2] if t.is_alive()]))
+                        for ch in chans if any(t.is_alive() for t in ch.threads[:2])]
+                ctx.inconclusive("transfer stalled with intact prefixes: %s | %s" % ([ch.errors for ch in chans][:3], diag[:2]))
             return
         if rekey_err or any(t.is_alive() for t in writers):
             for ch in chans:
